@@ -20,9 +20,12 @@ RULE = ("cases = corpus + lexed fixtures + every token sequence up to length L o
 def oracle(ctx, lines, impl):
     for c, a in zip(lines, impl):
         if not c.startswith("parse"):
-            ctx.oracle_fail("C04:lexer-crash", "the real lexer did not return on this text", {"mode": "toks", "case": c[:2000], "implementation": a})
+            sig = "C04:lexer-hang" if c.startswith("LEXFAIL:hang") else ("C04:lexer-panic" if c.startswith("LEXFAIL:panic") else "C04:lexer-crash")
+            ctx.oracle_fail(sig, "the real lexer did not return a token list on this text (%s)" % c[:40], {"mode": "toks", "case": c[:2000], "implementation": a})
             continue
-        if a == "panic":
+        if a == "hang":
+            ctx.oracle_fail("C04:hang", "parse_gold / tree walk / outline did not return within the deadline", {"mode": "parse", "case": c, "implementation": a})
+        elif a == "panic":
             ctx.oracle_fail("C04:panic", "parse_gold / tree walk / outline panicked", {"mode": "parse", "case": c, "implementation": a})
         elif a.startswith("<no-output"):
             ctx.oracle_fail("C04:crash-or-hang", "the harness process died or hung on this shard (stack overflow / abort / endless loop)",
@@ -76,6 +79,16 @@ def replay(ctx):
         return 1
     ctx.build_harness()
     ctx.lake_build(["driver"])
+    if line.startswith("LEXFAIL:"):
+        t = line.split(" ", 1)[1]
+        o = ctx.run_harness("toks", [t])[0]
+        print("text (escaped):", t[:2000])
+        print("real lexer    :", o[:300])
+        if not o.startswith("parse"):
+            print("VIOLATION property=C04 replay=%s" % ctx.replay)
+            return 1
+        print("the lexer returns a token list on this text")
+        return 0
     impl = ctx.run_harness("parse2mb", [line])[0]
     model = ctx.run_driver([line])[0]
     print("case          :", line[:3000])
